@@ -166,6 +166,7 @@ class HistMonitor:
         self.unc_between = False
         self.dead = False
         self.values_off = False
+        self.reset_policies()
 
     def fail(self, prop, kind, msg, fatal=True, **extra):
         v_case = dict(self.case)
@@ -190,6 +191,20 @@ class HistMonitor:
                 self.fail("C09", "preload-counted", "parser-style preload changed counters: %r cycles=%d" % (st, self.pm.cycles))
 
     def op(self, i, op, a, w, v):
+        self._op(i, op, a, w, v)
+        if self.pols is not None and not (self.dead and self.res.prop == "C10"):
+            if op == "reset":
+                pass  # policies were re-created right after the reset (before the read-back)
+            elif op == "p":
+                # a preload bypasses the cache: no access event; the tags must not change either
+                prev = self.tags_prev
+                self.policy_events("preload", None)
+                if prev is not None and prev != self.tags_prev:
+                    self.fail("C09", "preload-changed-cache", "op #%d: a direct write to lower memory changed the resident tags" % i, fatal=False)
+            else:
+                self.policy_events("op #%d %s addr=%#x width=%d" % (i, op, a & M32, w), a)
+
+    def _op(self, i, op, a, w, v):
         import fixedint
 
         res, m = self.res, self.m
@@ -200,6 +215,8 @@ class HistMonitor:
         where = "op #%d %s addr=%#x width=%d" % (i, op, a & M32, w)
         if op == "reset":
             m.reset()
+            if self.pols is not None:
+                self.reset_policies()
             self.flat = FlatMem()
             self.ref = RefCache(self.cfg["ib"], self.cfg["bb"], self.cfg["assoc"], self.cfg["policy"], self.cfg["wt"])
             st = m.get_cache_stats()
@@ -221,7 +238,8 @@ class HistMonitor:
             # on, so values / the C12 invariant are no longer judged in this history - accounting still is.
             if cross:
                 a -= (a & 3) + w - 4
-            if self.ref.resident(a):
+            _t, _words, _d = resident_view(self.m)  # residency as the REAL cache shows it
+            if any((((a + k_) & M32) & ~3) in _words for k_ in range(w)) or self.ref.resident(a):
                 self.values_off = True
                 res.count("warm_preloads_on_resident_block")
             f, T = WR[w]
@@ -248,6 +266,8 @@ class HistMonitor:
                 self.fail("C03", "spurious-reject", "%s stays within one word but was rejected: %r" % (where, e))
                 return
             res.count("crossing_rejected")
+            if self.pols is not None:
+                self.policy_events(where + " (rejected)", a)
             # cache state / counters after a rejected access are unspecified: re-synchronise nothing,
             # judge only stored values (read everything back) and the C12 invariant
             self.readback(where + " (rejected)")
@@ -310,6 +330,48 @@ class HistMonitor:
         if not self.dead:
             self.invariant(where)
 
+    def policy_events(self, where, addr=None):
+        """C10, set level, driven by OBSERVATION only (public cache_repr() before/after the operation): a way whose
+        tag did not change but holds the accessed tag was hit -> the reference policy of that set is told so; a way
+        whose tag changed to the accessed tag was filled -> it must be the reference policy's victim.  Independent
+        of allocation rules, counters and values (those are C03/C09/C12)."""
+        from ..refmodels.policies import make_policy
+
+        tags, _, _ = resident_view(self.m)
+        prev = self.tags_prev
+        self.tags_prev = tags
+        if prev is None or addr is None:
+            return
+        idx, tag = self.ref.split(addr)
+        before, after = prev[idx], tags[idx]
+        changed = [w for w in range(len(after)) if before[w] != after[w]]
+        for sidx in range(len(tags)):
+            if sidx != idx and prev[sidx] != tags[sidx]:
+                self.fail("C03", "foreign-set-changed", "%s: set %d changed although the access maps to set %d" % (where, sidx, idx), fatal=False)
+                return
+        pol = self.pols[idx]
+        if not changed:
+            if tag in after:
+                pol.access(after.index(tag))
+            return
+        if len(changed) == 1 and after[changed[0]] == tag:
+            self.res.count("fills_observed")
+            self.res.count("set_tag_checks")
+            d = changed[0]
+            v = pol.victim()
+            if d != v:
+                self.fail("C10", "displaced-way", "%s: the fill displaced way %d (tags %r -> %r), the %s policy's victim for the observed access history of this set is way %d" % (where, d, before, after, self.cfg["policy"], v))
+                return
+            pol.access(d)
+            return
+        self.fail("C03", "anomalous-set-update", "%s: set %d changed from %r to %r" % (where, idx, before, after), fatal=False)
+
+    def reset_policies(self):
+        from ..refmodels.policies import make_policy
+
+        self.pols = [make_policy(self.cfg["policy"], self.cfg["assoc"]) for _ in range(1 << self.cfg["ib"])]
+        self.tags_prev = resident_view(self.m)[0]
+
     def counters(self, where):
         st = self.m.get_cache_stats()
         got = (int(st["hits"]), int(st["accesses"]), bool(st["last_hit"]))
@@ -323,10 +385,6 @@ class HistMonitor:
         if self.pm.cycles != self.cyc:
             self.fail("C09", "penalty-mismatch", "%s: cycle counter %d, reference %d (penalty %d per counted miss)" % (where, self.pm.cycles, self.cyc, self.cfg["pen"]))
             return
-        tags, _, _ = resident_view(self.m)
-        self.res.count("set_tag_checks")
-        if tags != self.ref.resident_tags():
-            self.fail("C10", "displaced-way", "%s: resident tags per way real=%r reference=%r" % (where, tags, self.ref.resident_tags()))
 
     def readback(self, where):
         """whole universe read back (uncounted) must equal the flat memory"""
@@ -341,6 +399,8 @@ class HistMonitor:
                     self.fail("C03", "access-error", "read-back after %s: read_word(%#x) raised %r" % (where, a, e), addr=a)
                     return
                 self.ref.access(a, False, counted=False)
+                if self.pols is not None:
+                    self.policy_events("read-back of %#x after %s" % (a, where), a)
                 if got != self.flat.read(a, 4):
                     self.fail("C03", "value-changed-by-rejected-access", "after %s word %#x reads %#x, flat memory holds %#x" % (where, a, got, self.flat.read(a, 4)))
                     return
@@ -449,17 +509,21 @@ def run_bfs(spec, res, prop):
         return (repr(tags), tuple(sorted(words.items())), repr(dirty), rs, back)
 
     seen = {key(m0, {})}
-    frontier = [(m0, {}, [], ref0)]
+    mon0 = HistMonitor.__new__(HistMonitor)
+    HistMonitor_init_light(mon0, case0, res, prop, m0, {}, universe, ref0 if acct else None)
+    mon0.reset_policies()
+    frontier = [(m0, {}, [], ref0, (mon0.pols, mon0.tags_prev))]
     trans = 0
     depth_reached = 0
     for d in range(spec["depth"]):
         nxt = []
-        for m, flatb, path, rref in frontier:
+        for m, flatb, path, rref, polst in frontier:
             for o in ops:
                 c = copy.deepcopy(m)
                 trans += 1
                 mon = HistMonitor.__new__(HistMonitor)
                 HistMonitor_init_light(mon, dict(case0, ops=path + [list(o)]), res, prop, c, flatb, universe, copy.deepcopy(rref) if acct else None)
+                mon.pols, mon.tags_prev = copy.deepcopy(polst)
                 mon.op(len(path), *o)
                 if mon.dead:
                     res.transitions += trans
@@ -468,7 +532,7 @@ def run_bfs(spec, res, prop):
                 kk = key(c, None)
                 if kk not in seen:
                     seen.add(kk)
-                    nxt.append((c, dict(mon.flat.b), path + [list(o)], mon.ref))
+                    nxt.append((c, dict(mon.flat.b), path + [list(o)], mon.ref, (mon.pols, mon.tags_prev)))
         frontier = nxt
         depth_reached = d + 1
         if not frontier:
@@ -507,6 +571,8 @@ def HistMonitor_init_light(mon, case, res, prop, m, flatb, universe, ref=None):
     mon.unc_between = False
     mon.dead = False
     mon.values_off = False
+    mon.pols = None
+    mon.tags_prev = None
 
 
 # ------------------------------------------------------------------------------------------- programs
@@ -565,8 +631,9 @@ def run_prog(case, res, prop):
                 break
             out = pipe.run_five(c5, res, prop, ref)
             if out is None or out["rfault"] is not None:
-                if dc is not None and fin.get(False) is not None:
-                    res.violation("C03", "prog-result", "hazard detection off: the pipeline monitors are silent without data cache but fire / fault with it", case)
+                # value/order monitors (not timing/penalty ones - those are C07/C09) firing only with the cache on
+                if dc is not None and fin.get(False) is not None and (out is not None or pipe.LAST["tag"] in ("C02", "C08")):
+                    res.violation("C03", "prog-result", "hazard detection off: the pipeline's value/order monitors are silent without data cache but fire / fault with it", case)
                     return
                 fin = None
                 break
@@ -586,8 +653,12 @@ def run_prog(case, res, prop):
                 ref.run(case["max_instr"])
                 out = pipe.run_five(c5, res, prop, ref)
                 if out is None or out["rfault"] is not None:
+                    if dc is None:
+                        return  # not a cache matter (the pipeline monitors have recorded it under their own property)
                     if out is not None:
-                        res.violation("C03", "prog-fault", "five-stage with dcache=%r raised %r on a fault-free program" % (dc, out["rfault"]), case)
+                        res.violation("C03", "prog-fault", "five-stage with dcache=%r raised %r on a fault-free program that runs without data cache" % (dc, out["rfault"]), case)
+                    elif pipe.LAST["tag"] in ("C02", "C08"):
+                        res.violation("C03", "prog-result", "five-stage: the value/order monitors are silent without data cache but fire with dcache=%r" % (dc,), case)
                     return
                 sim = out["sim"]
             else:
@@ -601,7 +672,7 @@ def run_prog(case, res, prop):
                         sim.step()
                         k += 1
                 except Exception as e:
-                    res.violation("C03", "prog-fault", "single-cycle with dcache=%r raised %r on a fault-free program" % (dc, e), case)
+                    res.violation("C03" if dc is not None else "C01", "prog-fault", "single-cycle with dcache=%r raised %r on a fault-free program" % (dc, e), case)
                     return
             st = sim.state.memory.get_cache_stats()
             results[(mode, dc is not None)] = {
@@ -616,10 +687,10 @@ def run_prog(case, res, prop):
     res.count("prog_runs_compared")
     base = results[("single", False)]
     want = {"regs": seq.x, "out": seq.out, "exit": seq.exit, "done": True, "mem": seq.mem.nonzero()}
-    for k, r_ in results.items():
+    for k, r_ in sorted(results.items(), key=lambda kv: kv[0][1]):  # uncached runs first
         for f in ("regs", "out", "exit", "done", "mem"):
             if r_[f] != want[f]:
-                res.violation("C03" if k[1] else "C01", "prog-result", "%s mode, data cache %s: %s differs from the uncached/sequential result" % (k[0], "on" if k[1] else "off", f), case)
+                res.violation("C03" if k[1] else ("C01" if k[0] == "single" else "C02"), "prog-result", "%s mode, data cache %s: %s differs from the uncached/sequential result" % (k[0], "on" if k[1] else "off", f), case)
                 return
     s1, s5 = results[("single", True)]["stats"], results[("five", True)]["stats"]
     res.count("prog_stats_compared")
